@@ -10,7 +10,7 @@
 #include <string.h>
 #include <stdlib.h>
 
-#define MAXBLK 1100
+#define MAXBLK 8300
 static uint8_t KEYS[2][48];
 static uint8_t in_[MAXBLK * 16 + 64] __attribute__((aligned(32))), out_[3][MAXBLK * 16 + 64] __attribute__((aligned(32))), exp_[MAXBLK * 16 + 64], tw_[MAXBLK * 8 + 64] __attribute__((aligned(32))), tmp_[MAXBLK * 16 + 64] __attribute__((aligned(32)));
 
@@ -266,7 +266,7 @@ static void run_c07(void)
                                 c07_case_g(&kc[ki], be, nblk, dir, fam, ip);
                 for (dir = 0; dir < (c == CK_MANTIS ? 1 : 2); ++dir) c07_sweep(&kc[ki], be, dir);
                 {   /* larger counts: many batch iterations plus a remainder */
-                    static const int big[] = {31, 32, 33, 63, 64, 65, 127, 128, 129, 255, 256, 257, 1025};
+                    static const int big[] = {31, 32, 33, 63, 64, 65, 127, 128, 129, 255, 256, 257, 1025, 4097, 8193};   /* the last two cross 2^16 bytes */
                     size_t bi;
                     for (bi = 0; bi < sizeof(big) / sizeof(big[0]); ++bi)
                         for (dir = 0; dir < (c == CK_MANTIS ? 1 : 2); ++dir) c07_case_g(&kc[ki], be, big[bi], dir, (int)(bi & 1), (int)(bi & 1) ^ 1);
